@@ -105,7 +105,26 @@ def check_text(acc: core.Acc, text: str, opts: dict, all_chunkings: bool = True)
     deliveries.append(text.splitlines(keepends=True))
     deliveries.append([x for c in text for x in ('', c, '')])
     deliveries.append('<file-after-header>')
+    deliveries.append('<other-tokenizer-pending>')
     for chunks in deliveries:
+        if chunks == '<other-tokenizer-pending>':
+            # another tokenizer object is alive with a peeked / pushed-back token while this text is read
+            other = Tokenizer('"other" }\n', None)
+            pk = other.peek()
+            other2 = Tokenizer('{ "second"', None)
+            other2.push_back(*other2())
+            got, _, problem = run_tok(text, opts, n)
+            acc.evaluations += 1
+            if got != ref:
+                acc.fail('tok_chunk_dependent', dict(case, chunks='whole, while two other tokenizers hold pending tokens'),
+                         f'text={text!r} opts={opts}\n alone : {ref}\n with two other tokenizers holding a peeked / pushed-back token: {got}')
+                break
+            after = (other(), other2())
+            if after != (pk, (Token.BRACE_OPEN, '{')):
+                acc.fail('tok_chunk_dependent', dict(case, chunks='the other tokenizers afterwards'),
+                         f'text={text!r}: the other tokenizers lost their pending tokens: {after!r}')
+                break
+            continue
         if chunks == '<file-after-header>':
             # a file object whose first line (a header with tokens in it) was already consumed by the caller
             import io
